@@ -170,7 +170,7 @@ DEFAULT_KNOBS = dict(
     rowcol=True, unbounded=True, text=True, index=True, percent=True,
     abs_refs=True, sheet_refs=True, lead_consts=3,
     iferr=True, rowcol_noarg=True, union=True, sumproduct=True, stats=True,
-    lookup=True, reserve_name=True, lexical=True,
+    lookup=True, reserve_name=True, lexical=True, condagg=True,
 )
 
 
@@ -179,7 +179,7 @@ def draw_knobs(rnd, **override):
     k = dict(DEFAULT_KNOBS)
     for feat in ('ranges', 'names', 'cse', 'intersection', 'multicolon', 'rowcol',
                  'unbounded', 'text', 'index', 'percent', 'abs_refs', 'sheet_refs',
-                 'iferr', 'rowcol_noarg', 'union', 'sumproduct', 'stats', 'lookup'):
+                 'iferr', 'rowcol_noarg', 'union', 'sumproduct', 'stats', 'lookup', 'condagg'):
         k[feat] = rnd.random() < 0.7
     k['reserve_name'] = rnd.random() < 0.3
     k['lexical'] = rnd.random() < 0.4
@@ -435,6 +435,32 @@ class SpecGen:
             if form == 'INDEXMATCH':
                 return f'INDEX({txt},MATCH({key},{txt},0))', prec + pk, dk
             return f'INDEX({txt},{rnd.choice((1, 1, 2))},{rnd.choice((1, 1, 2))})', prec, []
+        if self.k.get('condagg') and rnd.random() < 0.12 and ' ' not in txt and prec and \
+                '(' not in txt:
+            # conditional aggregates and operators applied to whole ranges: criteria as text, as
+            # a cell, glued from an operator and a cell; the range to add up given in full or
+            # (Excel's shorthand) by its first cell
+            form = rnd.choice(('SUMIF', 'COUNTIF', 'SUMIFC', 'SUMIF3', 'SUMIF1', 'AVERAGEIF',
+                               'SPCMP', 'SPCMP', 'SPLEN'))
+            crit = rnd.choice(('">1"', '"<3"', '">=0"', '"<>2"', '1', 'TRUE', '"txt"'))
+            if form == 'SUMIF':
+                return f'SUMIF({txt},{crit})', prec, []
+            if form == 'COUNTIF':
+                return f'COUNTIF({txt},{crit})', prec, []
+            if form == 'AVERAGEIF':
+                return f'IFERROR(AVERAGEIF({txt},{crit}),-1)', prec, []
+            key, pk, dk = self.atom()
+            if form == 'SUMIFC':
+                if rnd.random() < 0.5:
+                    return f'SUMIF({txt},">"&{key})', prec + pk, dk
+                return f'COUNTIF({txt},{key})', prec + pk, dk
+            if form in ('SUMIF3', 'SUMIF1'):
+                return f'SUMIF({txt},{crit},{txt if form == "SUMIF3" else self.ref_text(prec[0])})', \
+                    prec, []
+            if form == 'SPCMP':
+                op = rnd.choice(('=', '>', '<>', '>='))
+                return f'SUMPRODUCT(({txt}{op}{key})*1)', prec + pk, dk
+            return f'SUMPRODUCT(LEN({txt}&""))', prec, []
         if self.k.get('sumproduct') and rnd.random() < 0.08 and ' ' not in txt:
             return f'SUMPRODUCT({txt})', prec, []
         if self.k.get('stats') and rnd.random() < 0.08 and ' ' not in txt:
@@ -728,7 +754,7 @@ class SpecGen:
         col0 = self.width[sheet] + 1 + 3 * n
         row0 = 1 + 4 * n
         kind = rnd.choice(('lift', 'lift2', 'scalar', 'trim', 'fill', 'reduce', 'mixed', 'mixed',
-                           'copy', 'inter', 'inter'))
+                           'copy', 'inter', 'inter', 'cmp', 'cat'))
         th, tw = h, w
         prec = list(src)
         decl = []
@@ -760,6 +786,17 @@ class SpecGen:
                 th, tw = h, w
             else:
                 f = f'=({txt})*{rnd.choice((2, 0.5, -1))}'
+        elif kind == 'cmp':
+            # a comparison applied to a whole range: TRUE / FALSE per element
+            a = self.pick_cell()
+            if rnd.random() < 0.5:
+                f = f'={src_txt}{rnd.choice((">", "=", "<>"))}{rnd.choice((0, 1, 2))}'
+            else:
+                f = f'={src_txt}{rnd.choice(("=", ">", "<="))}{self.ref_text(a)}'
+                prec = list(src) + [a]
+        elif kind == 'cat':
+            tail = rnd.choice(('"x"', '""', '"-"'))
+            f = f'={src_txt}&{tail}'
         elif kind == 'copy':
             f = f'={src_txt}'          # blanks of the source are zeros of the array
         elif kind == 'lift':
